@@ -516,10 +516,13 @@ def run(check):
 
     # (M) design-level model checking, and (M->R) TLC enumerating the scenarios:
     # independent TLC runs side by side (large families in parts)
-    common = "LN = %d\nLV = %d\nLP = %d\nThin = FALSE\nK = %d\nDup = %s\nNB = %d\nAllTemplates = %s" % (
+    common = "LN = %d\nLV = %d\nLP = %d\nK = %d\nDup = %s\nNB = %d\nAllTemplates = %s" % (
         (2, 2, 1, 4, "FALSE", 2, "FALSE") if quick else (3, 3, 2, 5, "TRUE", 3, "TRUE"))
+    # thorough: A and B in one part per kind (request, response, push promise, trailers
+    # of a request), C also over the two further templates (pushed response, trailers
+    # of a response), D in one part per role / stream
     jobs = [("A", 0), ("B", 0), ("C", 0), ("D", 0)] if quick else \
-           [("A", k) for k in range(1, 7)] + [("B", k) for k in range(1, 7)] + [("C", 0)] + [("D", k) for k in range(1, 4)]
+           [("A", k) for k in range(1, 5)] + [("B", k) for k in range(1, 5)] + [("C", 0)] + [("D", k) for k in range(1, 4)]
     ex = ThreadPoolExecutor(max_workers=5 if quick else 6)
     fut_m = ex.submit(check.run_tlc, "HeaderRulesMC",
                       "SPECIFICATION Spec\nCONSTANT MaxBody = %d\nBig = %s\nINVARIANT TypeOk\n"
@@ -571,7 +574,7 @@ def run(check):
     check.cov["tlc_enumerated_scenarios"] = fam_counts
 
     # (V) seeded random scenarios
-    nv = 6000 if quick else 150000
+    nv = 6000 if quick else 100000
     made = 0
     while made < nv:
         scn = rand_scenario(rnd)
